@@ -120,11 +120,12 @@ Lemma rot_at_wrap_example : rot (mkCfg 0 3) 4294967295 3 = [0; 1; 2].
 Proof. vm_compute. reflexivity. Qed.
 
 (* ---------- the invariant ---------- *)
-Definition is_conn (p : tpc) : bool := match p with TConn _ _ _ _ => true | _ => false end.
+Definition is_conn (p : tpc) : bool := match p with TConn _ _ _ _ _ => true | _ => false end.
 
 Definition pc_ok (c : dcfg) (p : tpc) : Prop :=
   match p with
-  | TLoop dl i0 k tr | TSem dl i0 k tr | TSemWait dl i0 k tr | TConn dl i0 k tr => k < nad c /\ tr = rot c i0 k
+  | TLoop dl i0 k tr | TSem dl i0 k tr | TSemWait dl i0 k tr => k < nad c /\ tr = rot c i0 k
+  | TConn dl cdl i0 k tr => (k < nad c /\ tr = rot c i0 k) /\ cdl = dl      (* the connect is cut at the dial's deadline *)
   | TDone (XErr a) dl i0 tr at_ => tr = rot c i0 (nad c) /\ a = addr_of c i0 (nad c - 1)
   | TDone (XTimeout a) dl i0 tr at_ =>
       dl <= at_ /\ exists k, k < nad c /\ a = addr_of c i0 k /\ (tr = rot c i0 k \/ tr = rot c i0 (k + 1))
@@ -191,6 +192,7 @@ Proof.
                   pose proof (length_remove_t t (inprog s) Ind Hin); rewrite (Isem Hc); lia].
   all: try solve [intros Hc; destruct (cap c =? 0) eqn:E; [apply N.eqb_eq in E; contradiction|]; specialize (Ibound Hc); lia].
   (* J *)
+  all: try match goal with Pt : (_ /\ _) /\ _ = _ |- _ => let Pc := fresh "Pc" in destruct Pt as [Pt Pc]; subst end.
   all: try solve [intros t0; usplit; [|apply Ipc]; destruct Pt as [Pk Ptr]; subst; cbn;
                   first [ split; [lia|]; exists k; split; [lia|]; split; [reflexivity|]; first [left; reflexivity | right; now rewrite rot_succ]
                         | exists k; split; [lia|]; split; [reflexivity|]; now rewrite rot_succ
@@ -221,13 +223,13 @@ Proof. intros Hn R E. pose proof (d_pc _ _ (dreach_inv c tr s Hn R) t) as P. rew
 (* whatever the result, the addresses tried so far are a prefix of that rotation *)
 Lemma tried_is_rotation_prefix c tr s t : 0 < nad c -> dreach c tr s ->
   match tp s t with
-  | TLoop _ i0 k tried | TSem _ i0 k tried | TSemWait _ i0 k tried | TConn _ i0 k tried => k < nad c /\ tried = rot c i0 k
+  | TLoop _ i0 k tried | TSem _ i0 k tried | TSemWait _ i0 k tried | TConn _ _ i0 k tried => k < nad c /\ tried = rot c i0 k
   | TDone _ _ i0 tried _ => exists k, k <= nad c /\ tried = rot c i0 k
   | _ => True
   end.
 Proof.
   intros Hn R. pose proof (d_pc _ _ (dreach_inv c tr s Hn R) t) as P.
-  destruct (tp s t) as [| | | | | |r dl i0 tried at_]; auto.
+  destruct (tp s t) as [| | | | |dl cdl i0 k tried|r dl i0 tried at_]; auto; [exact (proj1 P)|].
   destruct r; cbn in P.
   - destruct P as (k & Hk & _ & E). exists (k + 1). split; [lia|exact E].
   - destruct P as (_ & k & Hk & _ & [E|E]); [exists k|exists (k + 1)]; split; auto; lia.
@@ -246,26 +248,36 @@ Qed.
    the other dials do and however full the semaphore is *)
 Definition unfinished (p : tpc) : option (N * N * N) :=
   match p with
-  | TLoop dl i0 k _ | TSem dl i0 k _ | TSemWait dl i0 k _ | TConn dl i0 k _ => Some (dl, i0, k)
+  | TLoop dl i0 k _ | TSem dl i0 k _ | TSemWait dl i0 k _ | TConn dl _ i0 k _ => Some (dl, i0, k)
   | _ => None
   end.
-Lemma timeout_on_own_steps c s t dl i0 k :
+Lemma timeout_on_own_steps c tr s t dl i0 k :
+  0 < nad c -> dreach c tr s ->
   unfinished (tp s t) = Some (dl, i0, k) -> dl <= clock s ->
   exists ls s' tried, drun c s ls = Some s' /\ (length ls <= 2)%nat /\
                       tp s' t = TDone (XTimeout (addr_of c i0 k)) dl i0 tried (clock s) /\ clock s' = clock s.
 Proof.
-  intros U Hd. assert (Hb : (dl <=? clock s) = true) by (apply N.leb_le; exact Hd).
-  destruct (tp s t) as [| |dl' i0' k' tr|dl' i0' k' tr|dl' i0' k' tr|dl' i0' k' tr|] eqn:E; try discriminate;
+  intros Hn R U Hd. assert (Hb : (dl <=? clock s) = true) by (apply N.leb_le; exact Hd).
+  pose proof (d_pc _ _ (dreach_inv c tr s Hn R) t) as P.
+  destruct (tp s t) as [| |dl' i0' k' tr0|dl' i0' k' tr0|dl' i0' k' tr0|dl' cdl i0' k' tr0|] eqn:E; try discriminate;
     cbn in U; inversion U; subst; clear U.
   - exists [LCheck t]. eexists. eexists. cbn. rewrite E, Hb. split; [reflexivity|]. split; [lia|]. cbn. now rewrite upd_same.
   - destruct (has_slot c s) eqn:Hs.
-    + exists [LAcqFast t; LConnDeadline t]. eexists. eexists. cbn. rewrite E, Hs. cbn. rewrite upd_same, Hb.
+    + exists [LAcqFast t; LConnDeadline t]. eexists. eexists. cbn. rewrite E, Hs. cbn. rewrite upd_same.
+      unfold conn_ctx_deadline. rewrite Hb.
       split; [reflexivity|]. split; [lia|]. cbn. now rewrite upd_same.
     + exists [LAcqFull t; LSemTimeout t]. eexists. eexists. cbn. rewrite E, Hs. cbn. rewrite upd_same, Hb.
       split; [reflexivity|]. split; [lia|]. cbn. now rewrite upd_same.
   - exists [LSemTimeout t]. eexists. eexists. cbn. rewrite E, Hb. split; [reflexivity|]. split; [lia|]. cbn. now rewrite upd_same.
-  - exists [LConnDeadline t]. eexists. eexists. cbn. rewrite E, Hb. split; [reflexivity|]. split; [lia|]. cbn. now rewrite upd_same.
+  - (* the connect in progress is cut at the dial's deadline: this is where cdl = dl is needed *)
+    cbn in P. destruct P as [_ Pc]. subst cdl.
+    exists [LConnDeadline t]. eexists. eexists. cbn. rewrite E, Hb. split; [reflexivity|]. split; [lia|]. cbn. now rewrite upd_same.
 Qed.
+
+(* the context of every connect in progress expires exactly at the deadline of its dial *)
+Lemma connect_deadline_is_dial_deadline c tr s t dl cdl i0 k tried :
+  0 < nad c -> dreach c tr s -> tp s t = TConn dl cdl i0 k tried -> cdl = dl.
+Proof. intros Hn R E. pose proof (d_pc _ _ (dreach_inv c tr s Hn R) t) as P. rewrite E in P. exact (proj2 P). Qed.
 
 (* the old wrap witness, now harmless: counter 2^32-2, three addresses [refuse, refuse, accept]: the dial tries 0, 1, 2 and connects *)
 Lemma wrap_witness_fixed :
